@@ -672,9 +672,29 @@ def check_validator(ctx):
         'unparseable rule': lambda s: "== '!'" in s and '.rules[' in s
         and s.startswith('str('),
     }
+    # the registry asked by trying: `try: <x>.registered_rules[name] /
+    # except KeyError:` - the handler path is "unknown rule name"
+    reg_tries = set()
+    for tr in ast.walk(f.node):
+        if isinstance(tr, ast.Try) and len(tr.body) == 1 and isinstance(
+                tr.body[0], (ast.Expr, ast.Assign)) and isinstance(
+                    tr.body[0].value, ast.Subscript) and U(
+                        tr.body[0].value.value).endswith(
+                            '.registered_rules') and tr.handlers and all(
+                    U(h.type or '') == 'KeyError' for h in tr.handlers):
+            reg_tries.add('try@%d' % tr.lineno)
+
+    def unknown_by_try(c):
+        return c.kind == 'exc' and 'KeyError' in str(getattr(
+            c.expr, 'value', '')) and any(
+                tg in str(getattr(c.expr, 'value', ''))
+                for tg in reg_tries)
     bad = None
     for name, pred in probs.items():
         conds = find(pred)
+        if name == 'unknown rule name' and not conds:
+            conds = [c for p in t.paths for c in p.conds
+                     if unknown_by_try(c)]
         ctx.ob('C13.VALIDATOR', bool(conds), W, f.qual,
                'problem class: ' + name,
                'tested by the validator' if conds else
@@ -683,6 +703,8 @@ def check_validator(ctx):
     for p in t.paths:
         fired = []
         for c in p.conds:
+            if unknown_by_try(c):
+                fired.append('unknown rule name')
             if c.kind != 'test':
                 continue
             s = canon(c.expr)
